@@ -17,9 +17,11 @@ def guid(rng):
     return "{" + str(uuid.UUID(int=rng.getrandbits(128))) + "}"
 
 
-def gen_recipe(rng: random.Random, tier="quick", max_depth=1):
-    nst = rng.choice([1, 1, 2, 3, 4])
-    depth = rng.randrange(1, max_depth + 1)
+def gen_recipe(rng: random.Random, tier="quick", max_depth=1, nst=None, disorder=0.0, min_depth=1):
+    """nst: number of storages (default: 1..4); disorder: probability that a descriptor with >= 2 storages is forced to list them in
+    an order that is NOT ascending by Start (a plain shuffle leaves half of all 2-storage descriptors in order)."""
+    nst = nst or rng.choice([1, 1, 2, 3, 4])
+    depth = rng.randrange(min_depth, max_depth + 1)
     # snapshot tree: a chain of `depth` shots plus a few side branches
     chain = [DEFAULT_TOP if (depth == 1 or rng.random() < 0.5) else guid(rng)]
     while len(chain) < depth:
@@ -56,8 +58,34 @@ def gen_recipe(rng: random.Random, tier="quick", max_depth=1):
         pos += nsec
     order = list(range(nst))
     rng.shuffle(order)
+    if nst >= 2 and order == sorted(order) and rng.random() < disorder:
+        order = rng.choice([order[::-1], order[1:] + order[:1], order[-1:] + order[:-1]])
     return {"storages": storages, "xml_order": order, "shots": shots, "top": chain[0], "top_explicit": top_explicit, "chain": chain,
             "abs_paths": rng.random() < 0.2}
+
+
+def break_ancestor(r, rng, j, how="unknown_parent"):
+    """make the snapshot chain of the opened snapshot unresolvable at depth j (0 = the opened snapshot's own parent reference,
+    1 = its parent's, ... len(chain)-1 = the root's, which normally is the NULL GUID). Every image file stays where it is.
+      unknown_parent: chain[j]'s <ParentGUID> becomes a GUID that is neither NULL nor the GUID of any <Shot>
+      deleted_shot:   the <Shot> of chain[j] (j >= 1) is removed: chain[j-1]'s ParentGUID still names it (a damaged / hand-edited
+                      descriptor, a snapshot deleted without merging)
+    Opening must fail: a required ancestor cannot be resolved."""
+    chain = r["chain"]
+    if how == "deleted_shot":
+        assert j >= 1
+        r["shots"] = [sh for sh in r["shots"] if sh[0] != chain[j]]
+    else:
+        known = {sh[0] for sh in r["shots"]} | {NULL}
+        while True:
+            g = guid(rng)
+            if g not in known:
+                break
+        for sh in r["shots"]:
+            if sh[0] == chain[j]:
+                sh[1] = g
+    r["broken"] = {"at": j, "how": how}
+    return r
 
 
 def render_xml(r, root_dir="/nonexistent/orig.pvm/orig.hdd"):
